@@ -16,6 +16,7 @@ package txlocator_test
 import (
 	"fmt"
 	"os"
+	"runtime/debug"
 	"sort"
 	"strings"
 	"sync"
@@ -95,15 +96,21 @@ func (c *c11Config) name() string {
 }
 
 type c11Op struct {
-	K   string `json:"k"`            // "new" | "commit" | "restart"
-	P   int    `json:"p,omitempty"`  // new: parent slot (0 = last finalized block)
+	K   string `json:"k"`           // "new" | "commit" | "restart"
+	P   int    `json:"p,omitempty"` // new: parent slot (0 = last finalized block)
 	BTS int64  `json:"bts,omitempty"`
 	TH  int64  `json:"th,omitempty"`
-	L   []int  `json:"l,omitempty"`  // new: indices into the universe
-	S   int    `json:"s,omitempty"`  // commit: slot
+	L   []int  `json:"l,omitempty"` // new: indices into the universe
+	S   int    `json:"s,omitempty"` // commit: slot
+
+	str  string     // cached String()
+	list *c11TxList // cached transaction list (immutable)
 }
 
 func (o c11Op) String() string {
+	if o.str != "" {
+		return o.str
+	}
 	switch o.K {
 	case "new":
 		return fmt.Sprintf("new(p=%d,bts=%d,th=%d,l=%v)", o.P, o.BTS, o.TH, o.L)
@@ -141,7 +148,14 @@ func (c *c11Config) newOps() []c11Op {
 		for _, bts := range c.BlockTS {
 			for _, th := range c.BlockTH {
 				for _, l := range lists {
-					ops = append(ops, c11Op{K: "new", P: p, BTS: bts, TH: th, L: l})
+					o := c11Op{K: "new", P: p, BTS: bts, TH: th, L: l}
+					o.str = o.String()
+					o.list = &c11TxList{}
+					for _, i := range l {
+						d := c.Universe[i]
+						o.list.txs = append(o.list.txs, &c11Tx{id: []byte(d.ID), ts: d.TS, g: module.TransactionGroup(c.Group)})
+					}
+					ops = append(ops, o)
 				}
 			}
 		}
@@ -169,6 +183,7 @@ type c11Blk struct {
 	height    int64
 	committed bool
 	tr        module.LocatorTracker
+	dump      string // cached part of the state key
 }
 
 type c11Holder struct{ ts, th int64 }
@@ -185,17 +200,19 @@ type c11Inst struct {
 	tip       c11Blk               // last finalized block (tr = tracker children are derived from)
 	tipTS     int64                // timestamp of the last finalized block (survives restart)
 	slots     []*c11Blk            // live unfinalized blocks, nil = free
+	static    string               // cached part of the state key (everything but the live forest)
 }
 
 type c11Stats struct {
-	accepted, acceptedNonEmpty                int64
-	rejDupAdd, rejWindow                      int64
-	dupSameBlock, dupUnfinal, dupFinalCached  int64
-	dupFinalEvicted, dupAtBoundary            int64
-	dupBehindSmallerTh                        int64
-	spuriousReject                            int64
-	evictedStates, restarts, commits          int64
+	accepted, acceptedNonEmpty                 int64
+	rejDupAdd, rejWindow                       int64
+	dupSameBlock, dupUnfinal, dupFinalCached   int64
+	dupFinalEvicted, dupAtBoundary             int64
+	dupBehindSmallerTh                         int64
+	spuriousReject                             int64
+	evictedStates, restarts, commits           int64
 	winLowEq, winHighEq, winHighPlus1, winLow1 int64
+	nontrivialProposals                        int64
 }
 
 var (
@@ -210,12 +227,36 @@ func c11Violation(r *ev.Run, sig, detail string, c c11Case) {
 	r.Violation(sig, detail, c)
 }
 
+func (a *c11Stats) add(b *c11Stats) {
+	a.accepted += b.accepted
+	a.acceptedNonEmpty += b.acceptedNonEmpty
+	a.rejDupAdd += b.rejDupAdd
+	a.rejWindow += b.rejWindow
+	a.dupSameBlock += b.dupSameBlock
+	a.dupUnfinal += b.dupUnfinal
+	a.dupFinalCached += b.dupFinalCached
+	a.dupFinalEvicted += b.dupFinalEvicted
+	a.dupAtBoundary += b.dupAtBoundary
+	a.dupBehindSmallerTh += b.dupBehindSmallerTh
+	a.spuriousReject += b.spuriousReject
+	a.evictedStates += b.evictedStates
+	a.restarts += b.restarts
+	a.commits += b.commits
+	a.winLowEq += b.winLowEq
+	a.winHighEq += b.winHighEq
+	a.winHighPlus1 += b.winHighPlus1
+	a.winLow1 += b.winLow1
+	a.nontrivialProposals += b.nontrivialProposals
+}
+
 type c11Ctx struct {
-	r     *ev.Run
-	st    *c11Stats
-	hist  func() []c11Op // current history for replay files
-	key   string         // canonical key of the state the op is applied in
-	quiet bool           // do not report (used while replaying a prefix that was checked before)
+	r          *ev.Run
+	st         *c11Stats
+	hist       func() []c11Op // current history for replay files
+	key        string         // canonical key of the state the op is applied in
+	evals      int            // evaluations not yet reported to r (batched per state)
+	nontrivial int            // non-trivial proposals evaluated in this state
+	quiet      bool           // do not report (used while replaying a prefix that was checked before)
 }
 
 var c11Logger = func() log.Logger {
@@ -309,7 +350,7 @@ func (in *c11Inst) enabled(o c11Op) bool {
 	switch o.K {
 	case "new":
 		pb := in.parentOf(o.P)
-		if pb == nil || in.freeSlot() < 0 {
+		if pb == nil {
 			return false
 		}
 		pts := pb.ts
@@ -425,7 +466,10 @@ func (in *c11Inst) applyNew(o c11Op, cx *c11Ctx) int {
 
 	// ---- implementation
 	tr := pb.tr.New(pb.height+1, o.BTS, o.TH)
-	list := in.list(o.L)
+	list := o.list
+	if list == nil {
+		list = in.list(o.L)
+	}
 	_, addErr := tr.Add(list, false)
 	tsr := service.NewTimestampRange(o.BTS, o.TH)
 	var winErr error
@@ -439,22 +483,22 @@ func (in *c11Inst) applyNew(o c11Op, cx *c11Ctx) int {
 
 	if cx != nil && !cx.quiet {
 		st := cx.st
-		cx.r.Eval(1)
+		cx.evals++
 		nontrivial := false
 		for _, i := range o.L {
 			d := in.cfg.Universe[i]
 			switch d.TS {
 			case o.BTS - o.TH:
-				atomic.AddInt64(&st.winLowEq, 1)
+				st.winLowEq++
 				nontrivial = true
 			case o.BTS - o.TH + 1:
-				atomic.AddInt64(&st.winLow1, 1)
+				st.winLow1++
 				nontrivial = true
 			case o.BTS + o.TH:
-				atomic.AddInt64(&st.winHighEq, 1)
+				st.winHighEq++
 				nontrivial = true
 			case o.BTS + o.TH + 1:
-				atomic.AddInt64(&st.winHighPlus1, 1)
+				st.winHighPlus1++
 				nontrivial = true
 			}
 		}
@@ -462,38 +506,38 @@ func (in *c11Inst) applyNew(o c11Op, cx *c11Ctx) int {
 			nontrivial = true
 			switch dupWhere {
 			case "same-block":
-				atomic.AddInt64(&st.dupSameBlock, 1)
+				st.dupSameBlock++
 			case "unfinalized-ancestor":
-				atomic.AddInt64(&st.dupUnfinal, 1)
+				st.dupUnfinal++
 			case "finalized-ancestor":
 				if txlocator.VerifInIndex(in.mgr, []byte(dupTx.ID)) {
-					atomic.AddInt64(&st.dupFinalCached, 1)
+					st.dupFinalCached++
 				} else {
-					atomic.AddInt64(&st.dupFinalEvicted, 1)
+					st.dupFinalEvicted++
 				}
 			}
 			if dupWhere != "same-block" && windowOK {
 				if dupTx.TS == dupHolder.ts+dupHolder.th {
-					atomic.AddInt64(&st.dupAtBoundary, 1)
+					st.dupAtBoundary++
 				}
 				if o.TH < dupHolder.th || pb.th < dupHolder.th {
-					atomic.AddInt64(&st.dupBehindSmallerTh, 1)
+					st.dupBehindSmallerTh++
 				}
 			}
 		}
 		if nontrivial {
-			cx.r.Nontrivial(in.cfg.name() + "#" + cx.key + "#" + o.String())
+			cx.nontrivial++
 		}
 		switch {
 		case got:
-			atomic.AddInt64(&st.accepted, 1)
+			st.accepted++
 			if len(o.L) > 0 {
-				atomic.AddInt64(&st.acceptedNonEmpty, 1)
+				st.acceptedNonEmpty++
 			}
 		case addErr != nil:
-			atomic.AddInt64(&st.rejDupAdd, 1)
+			st.rejDupAdd++
 		default:
-			atomic.AddInt64(&st.rejWindow, 1)
+			st.rejWindow++
 		}
 		mk := func() c11Case {
 			return c11Case{Cfg: *in.cfg, Hist: append(append([]c11Op{}, cx.hist()...), o)}
@@ -526,7 +570,7 @@ func (in *c11Inst) applyNew(o c11Op, cx *c11Ctx) int {
 		}
 		if !got && expect {
 			// Not demanded by the property statement ("accepted only if"): counted, not reported.
-			atomic.AddInt64(&st.spuriousReject, 1)
+			st.spuriousReject++
 		}
 	}
 	// The successor state follows the model: a block the statement does not
@@ -536,6 +580,11 @@ func (in *c11Inst) applyNew(o c11Op, cx *c11Ctx) int {
 		return -1
 	}
 	s := in.freeSlot()
+	if s < 0 {
+		// all MaxLive slots are in use: the proposal was evaluated against the
+		// oracle but the block is not retained (bound of the explored space)
+		return -1
+	}
 	in.slots[s] = &c11Blk{parent: mp, ts: o.BTS, th: o.TH, txs: append([]int{}, o.L...), height: pb.height + 1, tr: tr}
 	return s
 }
@@ -562,7 +611,7 @@ func (in *c11Inst) applyCommit(o c11Op, cx *c11Ctx) {
 	}
 	txlocator.VerifWaitFlush(in.mgr)
 	if cx != nil && !cx.quiet {
-		atomic.AddInt64(&cx.st.commits, 1)
+		cx.st.commits++
 	}
 	for a := b; a != nil && !a.committed; a = a.parent {
 		a.committed = true
@@ -572,6 +621,12 @@ func (in *c11Inst) applyCommit(o c11Op, cx *c11Ctx) {
 	}
 	in.tip = *b
 	in.tipTS = b.ts
+	in.static = ""
+	for _, c := range in.slots {
+		if c != nil {
+			c.dump = ""
+		}
+	}
 	// block manager drops every fork that does not descend from the finalized block
 	for i, c := range in.slots {
 		if c == nil {
@@ -589,9 +644,10 @@ func (in *c11Inst) applyRestart(cx *c11Ctx) {
 	for i := range in.slots {
 		in.slots[i] = nil
 	}
+	in.static = ""
 	in.start()
 	if cx != nil && !cx.quiet {
-		atomic.AddInt64(&cx.st.restarts, 1)
+		cx.st.restarts++
 	}
 }
 
@@ -610,13 +666,25 @@ func (in *c11Inst) apply(o c11Op, cx *c11Ctx) {
 // of live blocks) plus everything of the real objects that can influence later
 // behaviour (manager index, caches, maxTSInDB, DB membership, tracker paths).
 func (in *c11Inst) key() string {
-	var sb strings.Builder
-	var fin []string
-	for id, h := range in.finalized {
-		fin = append(fin, fmt.Sprintf("%s:%d/%d", id, h.ts, h.th))
+	if in.static == "" {
+		var sb strings.Builder
+		var fin []string
+		for id, h := range in.finalized {
+			fin = append(fin, fmt.Sprintf("%s:%d/%d", id, h.ts, h.th))
+		}
+		sort.Strings(fin)
+		fmt.Fprintf(&sb, "F[%s]T(%d;%d,%d,%v)", strings.Join(fin, ","), in.tipTS, in.tip.ts, in.tip.th, in.tip.txs)
+		sb.WriteString("|tip:" + txlocator.VerifDumpTracker(in.tip.tr))
+		sb.WriteString("|M:" + txlocator.VerifDumpManager(in.mgr))
+		sb.WriteString("|DB:")
+		for _, d := range in.cfg.Universe {
+			bs, _ := in.bk.Get([]byte(d.ID))
+			if len(bs) > 0 {
+				sb.WriteString(d.ID)
+			}
+		}
+		in.static = sb.String()
 	}
-	sort.Strings(fin)
-	fmt.Fprintf(&sb, "F[%s]T(%d;%d,%d,%v)", strings.Join(fin, ","), in.tipTS, in.tip.ts, in.tip.th, in.tip.txs)
 	var node func(b *c11Blk) string
 	node = func(b *c11Blk) string {
 		var kids []string
@@ -626,7 +694,12 @@ func (in *c11Inst) key() string {
 			}
 		}
 		sort.Strings(kids)
-		return fmt.Sprintf("(%d,%d,%v|%s)[%s]", b.ts, b.th, b.txs, txlocator.VerifDumpTracker(b.tr), strings.Join(kids, ""))
+		if b.dump == "" {
+			// a tracker (and the parent path behind it) only changes on Commit,
+			// which clears these caches
+			b.dump = fmt.Sprintf("(%d,%d,%v|%s)", b.ts, b.th, b.txs, txlocator.VerifDumpTracker(b.tr))
+		}
+		return b.dump + "[" + strings.Join(kids, "") + "]"
 	}
 	var roots []string
 	for _, c := range in.slots {
@@ -635,17 +708,7 @@ func (in *c11Inst) key() string {
 		}
 	}
 	sort.Strings(roots)
-	sb.WriteString("B" + strings.Join(roots, ""))
-	sb.WriteString("|tip:" + txlocator.VerifDumpTracker(in.tip.tr))
-	sb.WriteString("|M:" + txlocator.VerifDumpManager(in.mgr))
-	sb.WriteString("|DB:")
-	for _, d := range in.cfg.Universe {
-		bs, _ := in.bk.Get([]byte(d.ID))
-		if len(bs) > 0 {
-			sb.WriteString(d.ID)
-		}
-	}
-	return sb.String()
+	return "B" + strings.Join(roots, "") + "|" + in.static
 }
 
 func (in *c11Inst) term() { in.mgr.Term() }
@@ -697,7 +760,7 @@ func c11BFS(r *ev.Run, cfg *c11Config, st *c11Stats, samples *[]c11Case, smu *sy
 				r.Sanity(false, "state key not reproducible on replay (%s): %q vs %q hist=%v", cfg.name(), k, f.key, f.hist)
 			}
 			if txlocator.VerifMaxTSInDB(in.mgr, in.g) != 0 {
-				atomic.AddInt64(&st.evictedStates, 1)
+				st.evictedStates++
 			}
 			hist := f.hist
 			cx := &c11Ctx{r: r, st: st, key: f.key, hist: func() []c11Op { return hist }}
@@ -716,6 +779,22 @@ func c11BFS(r *ev.Run, cfg *c11Config, st *c11Stats, samples *[]c11Case, smu *sy
 						next = append(next, fr{append(append([]c11Op{}, hist...), o), k})
 					}
 					in.undoNew(slot)
+				}
+			}
+			r.Eval(cx.evals)
+			if cx.nontrivial > 0 {
+				// every (state, proposal) pair is evaluated exactly once, so the
+				// proposals are distinct by construction; they are counted in
+				// nontrivial_proposals, and distinct_nontrivial conservatively
+				// counts the distinct (configuration, state) pairs having one.
+				r.Nontrivial(cfg.name() + "#" + f.key)
+				st.nontrivialProposals += int64(cx.nontrivial)
+			}
+			cx.evals, cx.nontrivial = 0, 0
+			in.static = ""
+			for _, c := range in.slots {
+				if c != nil {
+					c.dump = ""
 				}
 			}
 			if k := in.key(); k != f.key {
@@ -819,7 +898,7 @@ func c11Configs(r *ev.Run) []c11Config {
 		for _, ts := range tss {
 			// normal group: thresholds may change between blocks (governance)
 			out = append(out, c11Config{Group: int(module.TransactionGroupNormal), Startup: "base-force-committed", Th0: th0,
-				Universe: []c11TxDef{{"x", ts}}, BlockTS: blockTS, BlockTH: ths, MaxLive: maxLive, MaxList: 2, Depth: depth, Restart: true})
+				Universe: []c11TxDef{{"x", ts}}, BlockTS: blockTS, BlockTH: ths, MaxLive: maxLive, MaxList: 2, Depth: depth, Restart: r.Thorough() || th0 == 10})
 		}
 	}
 	// patch group: the threshold of patch blocks is a constant in goloop
@@ -851,7 +930,7 @@ func c11Configs(r *ev.Run) []c11Config {
 
 func TestVerifC11(t *testing.T) {
 	r := ev.Start(t, "C11", "model_checking")
-	r.Rule("per configuration (tx group x start-up threshold x universe of 1-2 transactions whose timestamps sit on/next to every window boundary bts±th of the block alphabet) a BFS over all reachable states of real txlocator manager+trackers on MapDB: ops = propose block(parent in live blocks or last finalized, bts in {100,110,120,130} > parent bts, th in {10,50}, list of <=2 txs incl. same-id twice), Commit(block) (finalizes ancestors, prunes other forks, joins the flush worker), Restart (Term + NewManager on the same DB + goloop's start-up sequence); state = model + manager index/caches/maxTSInDB/DB membership/tracker parent paths; non-trivial = a proposal whose list has a tx on a window boundary or a tx already present in the block/an ancestor, distinct by (configuration, state, proposal)")
+	r.Rule("per configuration (tx group x start-up threshold x universe of 1-2 transactions whose timestamps sit on/next to every window boundary bts±th of the block alphabet) a BFS over all reachable states of real txlocator manager+trackers on MapDB: ops = propose block(parent in live blocks or last finalized, bts in {100,110,120,130} > parent bts, th in {10,50}, list of <=2 txs incl. same-id twice), Commit(block) (finalizes ancestors, prunes other forks, joins the flush worker), Restart (Term + NewManager on the same DB + goloop's start-up sequence); state = model + manager index/caches/maxTSInDB/DB membership/tracker parent paths; non-trivial proposal = its list has a tx on a window boundary or a tx already present in the block/an ancestor (each (state, proposal) pair is evaluated once: nontrivial_proposals); distinct_nontrivial counts, conservatively, the distinct (configuration, state) pairs with at least one such proposal")
 	r.Assume(
 		"a transaction id determines its timestamp (id is a hash of the signed content), so one id never appears with two timestamps",
 		"block timestamps strictly increase along a chain",
@@ -870,6 +949,7 @@ func TestVerifC11(t *testing.T) {
 		hist := c.Hist[:n-1]
 		in.apply(c.Hist[n-1], &c11Ctx{r: r, st: st, hist: func() []c11Op { return hist }})
 		in.term()
+		r.Eval(1)
 		r.States(1)
 		r.Transitions(1)
 		r.Traces(1)
@@ -878,6 +958,7 @@ func TestVerifC11(t *testing.T) {
 		return
 	}
 
+	defer debug.SetGCPercent(debug.SetGCPercent(400))
 	cfgs := c11Configs(r)
 	st := &c11Stats{}
 	var samples []c11Case
@@ -890,7 +971,11 @@ func TestVerifC11(t *testing.T) {
 		if r.Expired() {
 			return
 		}
-		res := c11BFS(r, &cfgs[i], st, &samples, &smu)
+		lst := &c11Stats{}
+		res := c11BFS(r, &cfgs[i], lst, &samples, &smu)
+		smu.Lock()
+		st.add(lst)
+		smu.Unlock()
 		atomic.AddInt64(&states, res.states)
 		atomic.AddInt64(&transitions, res.transitions)
 		atomic.AddInt64(&traces, res.traces)
@@ -927,6 +1012,7 @@ func TestVerifC11(t *testing.T) {
 	r.Set("tx_at_bts_plus_th", st.winHighEq)
 	r.Set("tx_at_bts_plus_th_plus_1", st.winHighPlus1)
 	r.Set("states_with_cache_eviction", st.evictedStates)
+	r.Set("nontrivial_proposals", st.nontrivialProposals)
 	r.Set("commits", st.commits)
 	r.Set("restarts", st.restarts)
 	r.Set("valid_blocks_rejected_not_a_violation", st.spuriousReject)
